@@ -1024,6 +1024,8 @@ class Engine:
             return args[0]
         if decl == 'std::convert::From::from' and 'CtOption' in res:
             return args[0]
+        if decl in ('std::convert::From::from', 'std::convert::Into::into') and args and res and 'zeroize::Zeroizing<' in res:
+            return args[0]              # Zeroizing::from(x) / x.into() is Zeroizing::new(x): the wrapper is transparent
         if decl == 'std::convert::TryInto::try_into' and node is not None and node['dest']['ty'].startswith('std::result::Result<[u8;'):
             return args[0]
         if decl in ELEM_NEXT:
@@ -1067,6 +1069,20 @@ class Engine:
         if decl == 'std::iter::Iterator::flatten':
             return T('flatten', args[0])
         if decl == 'std::iter::Iterator::flat_map':
+            # `a.zip(b).flat_map(|(x, y)| [x, y])` walks a and b alternately: what `a.interleave(b)` does for equally long a and b
+            z0 = args[0]
+            while z0.tag == 'mut':
+                z0 = z0[1]
+            f0 = args[1][1] if args[1].tag == 'mut' else args[1]
+            if z0.tag == 'zip' and f0.tag == 'closure' and f0[1] in self.facts.fn:
+                el = mk_elem(self, z0)
+                r0 = self.apply(f0, (el,))
+                while r0.tag == 'mut':
+                    r0 = r0[1]
+                if r0.tag == 'array' and len(r0.args) == 2:
+                    x0, y0 = r0.args
+                    if x0 is project_field(el, '0', 0) and y0 is project_field(el, '1', 1):
+                        return T('interleave', z0[1], z0[2])
             return T('flatten', T('map', args[0], args[1]))
         if decl == 'std::iter::Iterator::take' and len(args) == 2:
             src = args[0]
